@@ -164,4 +164,11 @@ example : (defaultEnvironment exProbes).map (fun d => d.lookup (ofString "python
     (defaultEnvironment exProbes).map (fun d => d.lookup (ofString "implementation_version")) = some (some (ofString "3.12.1")) := by
   decide +kernel
 
+/-- the other branch: an empty release level makes `format_full_version` (and so `default_environment`) raise `IndexError` -/
+example : defaultEnvironment { exProbes with level := [], serial := 2 } = none := by decide +kernel
+
+/-- a non-final interpreter: `implementation_version` carries the first letter of the level and the serial -/
+example : (defaultEnvironment { exProbes with level := ofString "candidate", serial := 2 }).map
+    (fun d => d.lookup (ofString "implementation_version")) = some (some (ofString "3.12.1c2")) := by decide +kernel
+
 end Src
